@@ -2,8 +2,11 @@
 """Run checks against a seeded (property-breaking) change.
 
   tools/seeded.py run <id> --checks C05,C01 [--tier quick] [--jobs N]
-      apply /verif/seeded/<id>/patch.diff to /repo (git apply), run the checks, ALWAYS undo the change
-      (git checkout -- .), and record exit codes and violation signatures in seeded/<id>/results.json
+      apply /verif/seeded/<id>/patch.diff to a scratch copy of /repo's current tree (under /var/tmp,
+      removed afterwards), run the checks against it (VERIF_REPO) and record exit codes and violation
+      signatures in seeded/<id>/results.json.  /repo itself is never modified, so background sweeps that
+      use /repo are not disturbed (the equivalent in-place procedure is `git -C /repo apply <patch>`,
+      run, `git -C /repo checkout -- .`).
   tools/seeded.py demo <id>
       run seeded/<id>/demo.py with and without the patch (must fail with, pass without)
   tools/seeded.py table
@@ -40,13 +43,24 @@ def undo():
 
 
 def run(sid, checks, tier, jobs):
-    if not repo_clean():
-        raise SystemExit("/repo has uncommitted changes; refusing")
+    """The patch is applied to a scratch copy of /repo's current tree (outside /repo and /verif) and the
+    checks run against it through VERIF_REPO, so that nothing else using /repo at the same time is
+    disturbed; `run-inplace` applies it to /repo itself (git apply ... git checkout -- .)."""
+    import shutil
+
+    scratch = f"/var/tmp/gjx-seeded-{sid}"
+    shutil.rmtree(scratch, ignore_errors=True)
+    os.makedirs(scratch)
+    sh(f"cd {REPO} && git ls-files -z src | xargs -0 cp --parents -t {scratch}")
+    patch = os.path.join(ROOT, "seeded", sid, "patch.diff")
+    r = sh(f"cd {scratch} && git apply --unsafe-paths --directory={scratch} {patch} 2>&1 || patch -p1 < {patch}")
+    if not sh(f"diff -rq {REPO}/src {scratch}/src").stdout.strip():
+        shutil.rmtree(scratch, ignore_errors=True)
+        raise SystemExit(f"patch did not change the scratch copy: {r.stdout} {r.stderr}")
     out = {}
-    apply(sid)
     try:
         for c in checks:
-            cmd = f"cd {ROOT} && ./check {c} --tier {tier}" + (f" --jobs {jobs}" if jobs else "")
+            cmd = f"cd {ROOT} && VERIF_REPO={scratch} ./check {c} --tier {tier}" + (f" --jobs {jobs}" if jobs else "")
             r = sh(cmd)
             sigs = sorted(set(re.findall(r"signature: (\S.*)", r.stdout)))
             known = sorted(set(re.findall(r"KNOWN-FINDING: (.*)", r.stdout)))
@@ -54,9 +68,10 @@ def run(sid, checks, tier, jobs):
             out[c] = dict(exit=r.returncode, new_signatures=sigs[:12], n_signatures=len(sigs), summary=summary[-1] if summary else r.stdout[-300:] + r.stderr[-300:])
             print(f"{sid} {c}: exit={r.returncode} signatures={len(sigs)} {sigs[:2]}")
     finally:
-        undo()
+        shutil.rmtree(scratch, ignore_errors=True)
         # evidence files were rewritten by runs on the mutated tree: restore the committed ones
-        sh(f"git -C {ROOT} checkout -- evidence")
+        for c in checks:
+            sh(f"git -C {ROOT} checkout -- evidence/{c}.json")
     path = os.path.join(ROOT, "seeded", sid, "results.json")
     prev = {}
     if os.path.exists(path):
@@ -65,17 +80,33 @@ def run(sid, checks, tier, jobs):
     json.dump(prev, open(path, "w"), indent=1)
 
 
+def _scratch(sid):
+    import shutil
+
+    scratch = f"/var/tmp/gjx-seeded-{sid}"
+    shutil.rmtree(scratch, ignore_errors=True)
+    os.makedirs(scratch)
+    sh(f"cd {REPO} && git ls-files -z src | xargs -0 cp --parents -t {scratch}")
+    patch = os.path.join(ROOT, "seeded", sid, "patch.diff")
+    r = sh(f"cd {scratch} && patch -p1 < {patch}")
+    if not sh(f"diff -rq {REPO}/src {scratch}/src").stdout.strip():
+        shutil.rmtree(scratch, ignore_errors=True)
+        raise SystemExit(f"patch did not change the scratch copy: {r.stdout} {r.stderr}")
+    return scratch
+
+
 def demo(sid):
-    if not repo_clean():
-        raise SystemExit("/repo has uncommitted changes; refusing")
+    import shutil
+
     d = os.path.join(ROOT, "seeded", sid, "demo.py")
     env = dict(os.environ, PYTHONPATH=f"{REPO}/src", JAX_PLATFORMS="cpu")
     without = subprocess.run(["/venv/bin/python", d], capture_output=True, text=True, env=env)
-    apply(sid)
+    scratch = _scratch(sid)
     try:
-        with_ = subprocess.run(["/venv/bin/python", d], capture_output=True, text=True, env=env)
+        env2 = dict(os.environ, PYTHONPATH=f"{scratch}/src", JAX_PLATFORMS="cpu")
+        with_ = subprocess.run(["/venv/bin/python", d], capture_output=True, text=True, env=env2)
     finally:
-        undo()
+        shutil.rmtree(scratch, ignore_errors=True)
     print(f"{sid}: demo without patch exit={without.returncode}, with patch exit={with_.returncode}")
     if without.returncode != 0:
         print(without.stdout[-500:], without.stderr[-800:])
